@@ -339,7 +339,7 @@ def fmt(hist):
 
 
 def shards(tier, seed):
-    return [("search", drv, pol) for drv in DRIVERS for pol in POLICIES] + [("search", "m800", pol) for pol in M800_POLICIES] + [("search", "logix_noinit", "ok", "debuglog"), ("search", "cip", "large08", "debuglog"), ("search", "slc", "nofclose", "debuglog")]
+    return [("search", drv, pol) for drv in DRIVERS for pol in POLICIES] + [("search", "m800", pol) for pol in M800_POLICIES] + [("search", "cip", "ok", "python-O"), ("search", "logix_noinit", "large08", "python-O"), ("search", "slc", "ok", "python-O"), ("search", "logix_noinit", "ok", "debuglog"), ("search", "cip", "large08", "debuglog"), ("search", "slc", "nofclose", "debuglog")]
 
 
 def describe(tier, seed):
